@@ -54,6 +54,9 @@ structure Sc (σ : Type) where
   evs : List (Ev × Int)     -- lexeme event stack, top first
   params : List Lexeme      -- lastDirectiveParameters, oldest first
   cur : Int
+  /-- ghost (not in the Go code): a Keyword lexeme has been reported more recently than any closing
+      parenthesis — what the consumer's `currentDirective` depends on (Proofs/ScanSafe.lean) -/
+  ph : Bool := false
   deriving Repr
 
 inductive Fault where
@@ -253,6 +256,12 @@ def Ev.matches (b e : Ev) : Bool :=
   | .TextBegin, .TextEnd | .ParameterBegin, .ParameterEnd | .EnumBegin, .EnumEnd => true
   | _, _ => false
 
+/-- the ghost phase after a lexeme of type `t` has been reported -/
+def phAfter (ph : Bool) : LexType → Bool
+  | .Keyword => true
+  | .ContextExplicitClosing => false
+  | _ => ph
+
 /-- processLexemeEvent -/
 def processEvent {σ} (s : Sc σ) (ev : Ev × Int) : Except Fault (Option Lexeme × Sc σ) :=
   if ev.1.isBeginning then .ok (none, { s with evs := ev :: s.evs })
@@ -261,9 +270,9 @@ def processEvent {σ} (s : Sc σ) (ev : Ev × Int) : Except Fault (Option Lexeme
     | [] => .error (.panic "eventStack.Pop: Reading from empty stack")
     | st :: rest =>
       if Ev.matches st.1 ev.1 then
-        .ok (some ⟨ev.1.toLexType, st.2, ev.2⟩, { s with evs := rest })
+        .ok (some ⟨ev.1.toLexType, st.2, ev.2⟩, { s with evs := rest, ph := phAfter s.ph ev.1.toLexType })
       else .error (.err (.basic "Ending lexeme event does not match beginning event") s.cur)
-  else .ok (some ⟨ev.1.toLexType, ev.2, ev.2⟩, s)
+  else .ok (some ⟨ev.1.toLexType, ev.2, ev.2⟩, { s with ph := phAfter s.ph ev.1.toLexType })
 
 /-- the `for range s.finds` loop of Next: at most `n` queued events; stops at the first lexeme -/
 def drain {σ} : Nat → Sc σ → Except Fault (Option Lexeme × Sc σ)
